@@ -70,7 +70,8 @@ func pathProps(body []byte) (out string) {
 		}
 	}()
 	s, err := catalog.UnmarshalJSightSchema("", body, &catalog.UserSchemas{}, nil)
-	if err != nil {
+	if err != nil && !strings.Contains(string(body), "allOf") {
+		// (a body that inherits properties through allOf is the library's to decide: its names are not all in the text)
 		// the body may name user types and enum rules the oracle does not have; the NAMES of the properties do not depend
 		// on them: annotations are dropped and type references replaced by a literal before a second try
 		s, err = catalog.UnmarshalJSightSchema("", withoutReferences(body), &catalog.UserSchemas{}, nil)
